@@ -7,6 +7,7 @@ use crate::util::*;
 use rayon::prelude::*;
 use serde_json::{json, Value};
 use std::collections::BTreeMap;
+use std::os::unix::fs::OpenOptionsExt;
 
 const CS: usize = 65536;
 
@@ -423,6 +424,111 @@ pub fn run(rep: &'static Report) {
         }
     });
     rep.extra("size_limited_output_runs", json!(lim_jobs.len()));
+    // wiring "the -o path already holds a longer file" and wiring "the FILE argument is a named pipe":
+    // for every logical case, the outcome must be what the model says and equal to the baseline wiring
+    let mut xjobs = vec![];
+    for ci in 0..cases.len() {
+        xjobs.push((ci, "preexisting-output"));
+        xjobs.push((ci, "fifo-input"));
+    }
+    xjobs.par_iter().for_each(|&(ci, kind)| {
+        rep.eval(1);
+        rep.nontrivial(format!("{}-{}", cases[ci].name, kind).as_bytes());
+        let attempt = || -> Result<(), String> {
+            let l = &cases[ci];
+            let w = Wiring { stdin_input: false, stdout_output: false, env_keyring: false, short_opts: false, alias: false, opts_first: false };
+            let (cmd, files, _) = build_cmd(l, &w);
+            let sc = Scratch::new();
+            for (n, d) in &files {
+                if kind == "fifo-input" && n == "input.bin" {
+                    continue;
+                }
+                sc.write(n, d);
+            }
+            let stale = vec![b'S'; 300_000];
+            if kind == "preexisting-output" {
+                sc.write("out.bin", &stale);
+            }
+            let feeder = if kind == "fifo-input" {
+                let path = sc.path("input.bin");
+                let cpath = std::ffi::CString::new(path.to_str().unwrap()).unwrap();
+                if unsafe { libc::mkfifo(cpath.as_ptr(), 0o600) } != 0 {
+                    return Err("MACHINERY: mkfifo failed".into());
+                }
+                let data = l.input.clone();
+                Some(std::thread::spawn(move || {
+                    // open blocks until the CLI opens the pipe for reading; a CLI that never opens it is handled by O_NONBLOCK retry
+                    use std::io::Write;
+                    let t0 = std::time::Instant::now();
+                    loop {
+                        match std::fs::OpenOptions::new().write(true).custom_flags(libc::O_NONBLOCK).open(&path) {
+                            Ok(mut f) => {
+                                // back to blocking writes
+                                unsafe {
+                                    use std::os::unix::io::AsRawFd;
+                                    let fl = libc::fcntl(f.as_raw_fd(), libc::F_GETFL);
+                                    libc::fcntl(f.as_raw_fd(), libc::F_SETFL, fl & !libc::O_NONBLOCK);
+                                }
+                                let _ = f.write_all(&data);
+                                break;
+                            }
+                            Err(_) => {
+                                if t0.elapsed().as_secs() > 20 {
+                                    break;
+                                }
+                                std::thread::sleep(std::time::Duration::from_millis(2));
+                            }
+                        }
+                    }
+                }))
+            } else {
+                None
+            };
+            let out = proc::run(&cmd, &sc.0);
+            if let Some(f) = feeder {
+                let _ = f.join();
+            }
+            out.well_behaved()?;
+            if out.ok() != l.succeeds {
+                return Err(format!("exit status {} but the operation {} when {}", if out.ok() { 0 } else { 1 }, if l.succeeds { "should complete" } else { "cannot complete" }, if kind == "fifo-input" { "the FILE argument is a named pipe carrying the same bytes" } else { "the output path already holds a longer file" }));
+            }
+            if out.ok() {
+                let data = sc.read("out.bin").ok_or("exit 0 but no output file")?;
+                match l.kind {
+                    Kind::Decrypt | Kind::PassDecrypt => {
+                        if data != l.plain {
+                            return Err(format!("exit 0 but the output file holds {} bytes, the authenticated plaintext has {}{}", data.len(), l.plain.len(), if data.starts_with(&l.plain) { " (stale bytes of the previous file follow it)" } else { "" }));
+                        }
+                    }
+                    Kind::Encrypt => {
+                        let (rsk, spk) = l.ref_keys.unwrap();
+                        match r::read_key_file(&rsk, &data) {
+                            Ok(k) if k.parsed.plaintext == l.plain && k.sender == spk => {}
+                            _ => return Err(format!("exit 0 but the {}-byte output file is not exactly a conforming encrypted file", data.len())),
+                        }
+                    }
+                    Kind::PassEncrypt => {
+                        let salt: [u8; 32] = data.get(4..36).ok_or("short output")?.try_into().unwrap();
+                        let k = r::pass_key(l.pass_for_ref.as_ref().unwrap(), &salt);
+                        match r::read_pass_file_with_key(&k, &data) {
+                            Ok(p) if p.plaintext == l.plain => {}
+                            _ => return Err(format!("exit 0 but the {}-byte output file is not exactly a conforming password file", data.len())),
+                        }
+                    }
+                }
+            }
+            Ok(())
+        };
+        if let Err(e) = attempt() {
+            if e.starts_with("MACHINERY") {
+                crate::report::machinery(&e);
+            }
+            if let Err(e2) = attempt() {
+                rep.violation(&format!("model/{}/{}", kind, cases[ci].name), json!({"kind":"extra-wiring","case":cases[ci].name,"wiring":kind}), format!("{} [{}]: {}", cases[ci].name, kind, e2));
+            }
+        }
+    });
+    rep.extra("extra_wiring_runs", json!(xjobs.len()));
     rep.extra("logical_cases", json!(cases.iter().map(|c| c.name.clone()).collect::<Vec<_>>()));
     rep.extra("runs", json!(jobs.len()));
     rep.sample(json!({"case":"decrypt/valid-3-chunks-sender-last","wiring":{"input":"stdin","output":"stdout","keyring":"KESTREL_KEYRING","options":"short","command":"dec"},"expect":"exit 0; stdout == 131149 plaintext bytes; stderr 'Success. File from: alice' although decoy entries share 24 leading/trailing characters of alice's key"}));
@@ -434,6 +540,11 @@ pub fn replay(rep: &'static Report, case: &Value) {
     let cases = logical_cases(rep.seed, rep.tier);
     let name = case["case"].as_str().unwrap_or("");
     let c = cases.iter().find(|c| c.name == name).unwrap_or_else(|| crate::report::machinery("unknown case"));
+    if case["kind"] == "extra-wiring" {
+        println!("  re-running C12 (extra wirings are part of the deterministic product)");
+        run(rep);
+        return;
+    }
     if case["kind"] == "limit" {
         let w = Wiring { stdin_input: case["stdin"].as_bool().unwrap_or(false), stdout_output: false, env_keyring: false, short_opts: false, alias: false, opts_first: false };
         let (mut cmd, files, _) = build_cmd(c, &w);
